@@ -59,10 +59,32 @@ def numpy_model(I, cap, prefix):
         arr = ArrayV(names)
         # iterating the result (list comprehension over it) yields the unknowns
         return ListV([Num(ep.sym(nm)) for nm in names], "list") if prefix == "B" else PyObjV(arr)
+    class InvV(object):
+        """numpy.linalg.inv(A): only ever multiplied onto a right-hand side"""
+        def __init__(self, A):
+            self.A = A
+
+        def key(self):
+            return ("inv", self.A.key())
+
+    def inv(args, kwargs, node, env):
+        if kwargs or len(args) != 1:
+            raise AnalysisError("linalg.inv arguments")
+        return PyObjV(InvV(args[0]))
+
+    def dot(args, kwargs, node, env):
+        if kwargs or len(args) != 2 or not (isinstance(args[0], PyObjV) and isinstance(args[0].obj, InvV)):
+            raise AnalysisError("numpy.dot other than inverse times right-hand side")
+        # inv(A) . B is the solution of A x = B
+        r = solve([args[0].obj.A, args[1]], {}, node, env)
+        return PyObjV(ArrayV([repr(x.rf) for x in r.items])) if isinstance(r, ListV) else r
     for mod in ("numpy", "np"):
         setattr(I, "x_%s_array" % mod, array)
         setattr(I, "x_%s_reshape" % mod, reshape)
         setattr(I, "x_%s_linalg_solve" % mod, solve)
+        setattr(I, "x_%s_linalg_inv" % mod, inv)
+        setattr(I, "x_%s_dot" % mod, dot)
+        setattr(I, "x_%s_matmul" % mod, dot)
 
 
 def point(I, P, name, rname):
@@ -88,6 +110,8 @@ def run(chk):
     chk.attempt("O2", lambda: exp_spline(chk, P))
     chk.attempt("O3", lambda: buck4_spline(chk, P))
     chk.attempt("O4", lambda: spline_modifier(chk, P))
+    chk.rule("C10.O7", "a second spline made in the same process, with one radius changed, solves the system of its own radii", 5)
+    chk.attempt("O7", lambda: second_spline(chk, P))
     chk.attempt("O5", lambda: buck4_shorthand(chk, P))
     chk.assume("solvability and conditioning of the linear systems (numpy.linalg.solve) are not decided; given exact solves the "
                "checked rows are the C2 continuity statement")
@@ -259,6 +283,47 @@ def exp_spline(chk, P):
     chk.ob("C10.O2", "exp_spline takes (B0..B5, C) in the order the coefficients are produced",
            params[1:] == ["B0", "B1", "B2", "B3", "B4", "B5", "C"], site=inst.ci.site_of("__call__"), found=params,
            expect="r, B0..B5, C", key="C10.O2|signature")
+
+
+def second_spline(chk, P):
+    mod = "atsim.potentials.spline"
+    for cname, radii, prefix in (("Buck4_Spline", ("r_dp", "r_ap", "r_min"), "u"), ("Exp_Spline", ("sx", "ex"), "B")):
+        cls = P.cls(mod, cname)
+
+        def build(I, names, cname=cname):
+            args = [_point_syms(I, P, "s", names[0]), _point_syms(I, P, "e", names[1])]
+            if cname == "Buck4_Spline":
+                args.append(Num(ep.sym(names[2])))
+            inst = I.instantiate(cls, args, {}, None)
+            I.getattr(inst, "spline_coefficients")
+            return inst
+
+        def positive(cond):
+            # end values positive: Exp_Spline does not shift (one scenario is enough for this rule)
+            if isinstance(cond, Cond) and cond.kind == "cmp" and cond.args[0] in ("<=", "<") and repr(cond.args[1]) in ("sv", "ev"):
+                return False
+            return None
+        for i, nm in enumerate(radii):
+            changed = list(radii)
+            changed[i] = nm + "_2"
+            H = F.make_interp(P)
+            H.assumption_fns.append(positive)
+            H.assumption_fns.append(F.distinct((nm, nm + "_2")))
+            cap = SolveCapture()
+            numpy_model(H, cap, prefix)
+            build(H, radii)
+            n0 = len(cap.systems)
+            build(H, changed)
+            again = [(A.key(), B.key()) for A, B, _ in cap.systems[n0:]]
+            Fr = F.make_interp(P)
+            Fr.assumption_fns.append(positive)
+            capf = SolveCapture()
+            numpy_model(Fr, capf, prefix)
+            build(Fr, changed)
+            fresh = [(A.key(), B.key()) for A, B, _ in capf.systems]
+            chk.ob("C10.O7", "%s built after one with a different %s solves the equations of its own radii" % (cname, nm), again == fresh and bool(fresh),
+                   site=cls.site_of("_init_spline_coefficients"), found="the matrix of the first spline is used again" if again != fresh else None,
+                   expect="the system a fresh process sets up", key="C10.O7|%s|%s" % (cname, nm))
 
 
 def buck4_spline(chk, P):
